@@ -449,12 +449,7 @@ Lemma note_hash_inj c1 p1 c2 p2 : 0 <= p1 < 128 -> 0 <= p2 < 128 ->
   note_hash c1 p1 = note_hash c2 p2 -> c1 = c2 /\ p1 = p2.
 Proof. unfold note_hash. lia. Qed.
 
-Definition nhash (n : note) : Z := let '(ch, _, p, _) := n in note_hash ch p.
-Definition is_note_msg (m : msg) : bool :=
-  let '(_, k, _, _, v) := m in ((k =? 1) && (0 <? v)) || (k =? 0) || ((k =? 1) && (v =? 0)).
-Definition mhash (m : msg) : Z := let '(_, _, ch, p, _) := m in note_hash ch p.
-Definition proj (h : Z) (evs : list msg) : list msg :=
-  filter (fun m => is_note_msg m && (mhash m =? h)) evs.
+(* nhash, is_note_msg, mhash, proj: see Model/C04.v *)
 
 (* the loop for a single key *)
 Fixpoint pair_single (o : option Z) (evs : list msg) : list note :=
